@@ -199,6 +199,37 @@ Lemma op_mul_table :
     [XTransverse; XRot90;      XRot270;     XTranspose;  XRot180;     XFlipH;      XFlipV;      XNone] ].
 Proof. vm_compute. reflexivity. Qed.
 
+(* ----------------------------------- jpeg_copy_critical_parameters' table rule *)
+Lemma zlist_eqb_eq a b : zlist_eqb a b = true -> a = b.
+Proof.
+  revert b. induction a as [|x a IH]; intros [|y b] H; cbn in H; try discriminate; [reflexivity|].
+  apply andb_true_iff in H. destruct H as [H1 H2]. apply Z.eqb_eq in H1. f_equal; [exact H1|apply IH; exact H2].
+Qed.
+
+Lemma zlist_eqb_refl a : zlist_eqb a a = true.
+Proof. induction a as [|x a IH]; cbn; [reflexivity|]. rewrite Z.eqb_refl. exact IH. Qed.
+
+Definition xf_slots (tr : bool) (slots : list (list Z)) : list (list Z) :=
+  map (fun q => if tr then transpose_q q else q) slots.
+
+Lemma slot_of_xf tr slots tq : slot_of (xf_slots tr slots) tq = if tr then transpose_q (slot_of slots tq) else slot_of slots tq.
+Proof.
+  unfold slot_of, xf_slots. destruct tr.
+  - transitivity (nth (Z.to_nat tq) (map transpose_q slots) (transpose_q [])); [reflexivity|apply map_nth].
+  - change (map (fun q : list Z => if false then transpose_q q else q) slots) with (map (fun q : list Z => q) slots).
+    rewrite map_id. reflexivity.
+Qed.
+
+(* accepted: the latched table of every component is the content of its slot *)
+Lemma quant_ok_latched im c : quant_ok im = true -> In c (i_comps im) -> c_q c = slot_of (i_slots im) (c_tq c).
+Proof.
+  unfold quant_ok. intros H Hc. rewrite forallb_forall in H. apply zlist_eqb_eq. apply H. exact Hc.
+Qed.
+
+Lemma slot_q_follows im tr c : quant_ok im = true -> In c (i_comps im) ->
+  slot_of (xf_slots tr (i_slots im)) (c_tq c) = if tr then transpose_q (c_q c) else c_q c.
+Proof. intros H Hc. rewrite slot_of_xf, <- (quant_ok_latched im c H Hc). reflexivity. Qed.
+
 (* ------------------------------------------------- whole-iMCU images *)
 Definition plain (op : xop) : xopts := mkxopts op false false false None false.
 
@@ -211,12 +242,13 @@ Definition whole_image (im : image) (Mw Mh : Z) : Prop :=
   0 < Mw /\ 0 < Mh /\
   i_w im = Mw * (max_hs (i_comps im) * 8) /\ i_h im = Mh * (max_vs (i_comps im) * 8) /\
   (length (i_comps im) = 1%nat -> Forall (fun c => c_hs c = 1 /\ c_vs c = 1) (i_comps im)) /\
+  quant_ok im = true /\
   Forall (comp_ok Mw Mh) (i_comps im).
 
 Definition comp_rel (op : xop) (c c' : comp) : Prop :=
   c_hs c' = tw op (c_hs c) (c_vs c) /\ c_vs c' = th op (c_hs c) (c_vs c) /\
   c_wb c' = tw op (c_wb c) (c_hb c) /\ c_hb c' = th op (c_wb c) (c_hb c) /\
-  c_q c' = spec_q op (c_q c) /\
+  c_tq c' = c_tq c /\ c_q c' = spec_q op (c_q c) /\
   forall x y, 0 <= x < c_wb c' -> 0 <= y < c_hb c' ->
     c_blk c' x y = full_plane op (c_wb c) (c_hb c) (c_blk c) x y.
 
@@ -231,7 +263,7 @@ Definition mk_dst (op : xop) (ncs W H mh mv : Z) (c : comp) : comp :=
   let wb := cdiv (tw op W H * hs) (mh * 8) in
   let hb := cdiv (th op W H * vs) (mv * 8) in
   let g := mkgeom hs vs wb hb (c_wb c) W H mh mv 0 0 in
-  mkcomp hs vs wb hb (if tr then transpose_q (c_q c) else c_q c) (exec_comp op false g (c_blk c)).
+  mkcomp hs vs wb hb (c_tq c) (if tr then transpose_q (c_q c) else c_q c) (exec_comp op false g (c_blk c)).
 
 Definition samp_mh (ncs : Z) (tr : bool) (cs : list comp) : Z :=
   fold_right (fun s m => Z.max (fst s) m) 1 (map (dst_samp ncs tr) cs).
@@ -239,16 +271,20 @@ Definition samp_mv (ncs : Z) (tr : bool) (cs : list comp) : Z :=
   fold_right (fun s m => Z.max (snd s) m) 1 (map (dst_samp ncs tr) cs).
 
 Lemma transform_plain_eq op im :
+  quant_ok im = true ->
   let ncs := Z.of_nat (length (i_comps im)) in
   transform im (plain op) =
   inr (mkimage (tw op (i_w im) (i_h im)) (th op (i_w im) (i_h im)) (i_cs im)
+         (xf_slots (transposes op) (i_slots im))
          (map (mk_dst op ncs (i_w im) (i_h im) (samp_mh ncs (transposes op) (i_comps im))
                       (samp_mv ncs (transposes op) (i_comps im))) (i_comps im))).
 Proof.
-  cbv zeta. unfold transform, request_workspace, plain.
-  cbn [xo_op xo_perfect xo_trim xo_gray xo_crop xo_slow andb negb]. cbv zeta.
+  intros Hq. cbv zeta. unfold transform, request_workspace, plain.
+  cbn [xo_op xo_perfect xo_trim xo_gray xo_crop xo_slow andb negb]. cbv zeta. rewrite Hq. cbn [negb].
+  fold (xf_slots (transposes op) (i_slots im)).
   destruct op; cbn [transposes tw th p_nc p_ow p_oh p_xco p_yco];
-    rewrite Nat2Z.id, firstn_all; reflexivity.
+    rewrite Nat2Z.id, firstn_all; (f_equal; f_equal; apply map_ext_in; intros c Hc;
+    unfold mk_dst; cbv zeta; cbn [transposes tw th]; rewrite (slot_q_follows im _ c Hq Hc); reflexivity).
 Qed.
 
 Lemma max_hs_ge1 cs : 1 <= max_hs cs.
@@ -326,11 +362,11 @@ Proof.
         unfold tw, th in *. cbn [transposes] in *. rewrite div_mul_exact by lia. rewrite Hwb. lia. }
   unfold cc in *. clear cc. cbn [c_blk] in Hblk.
   split.
-  - unfold comp_rel. cbn [c_hs c_vs c_wb c_hb c_q c_blk].
+  - unfold comp_rel. cbn [c_hs c_vs c_wb c_hb c_tq c_q c_blk].
     repeat split; try reflexivity.
     + unfold spec_q. destruct (transposes op); [apply transpose_q_spec; exact Hq|reflexivity].
     + exact Hblk.
-  - unfold comp_ok. cbn [c_hs c_vs c_wb c_hb c_q c_blk].
+  - unfold comp_ok. cbn [c_hs c_vs c_wb c_hb c_tq c_q c_blk].
     split; [unfold tw; destruct (transposes op); lia|].
     split; [unfold th; destruct (transposes op); lia|].
     split; [unfold tw; destruct (transposes op); lia|].
@@ -368,8 +404,8 @@ Theorem transform_plain_whole op im Mw Mh :
   exists im', transform im (plain op) = inr im' /\ image_rel op im im' /\
               whole_image im' (tw op Mw Mh) (th op Mw Mh).
 Proof.
-  intros (HMw & HMh & HW & HH & H1 & Hok).
-  pose proof (transform_plain_eq op im) as HT. cbv zeta in HT.
+  intros (HMw & HMh & HW & HH & H1 & Hqok & Hok).
+  pose proof (transform_plain_eq op im Hqok) as HT. cbv zeta in HT.
   eexists. split; [exact HT|].
   set (cs := i_comps im) in *. set (ncs := Z.of_nat (length cs)) in *.
   assert (Hs : forall c, In c cs -> dst_samp ncs (transposes op) c = (tw op (c_hs c) (c_vs c), th op (c_hs c) (c_vs c))).
@@ -389,7 +425,7 @@ Proof.
   - unfold image_rel. cbn [i_w i_h i_cs i_comps]. rewrite HW, HH.
     repeat split; try reflexivity.
     apply Forall2_map_r. intros c Hc. apply (Hmk c Hc).
-  - unfold whole_image. cbn [i_w i_h i_comps].
+  - unfold whole_image. cbn [i_w i_h i_comps i_slots].
     destruct (max_map_mk op ncs (Mw * (max_hs cs * 8)) (Mh * (max_vs cs * 8))
                 (tw op (max_hs cs) (max_vs cs)) (th op (max_hs cs) (max_vs cs)) cs) as [E1 E2].
     rewrite E1, E2, Emh, Emv.
@@ -397,11 +433,16 @@ Proof.
     split; [unfold th; destruct (transposes op); lia|].
     split; [unfold tw; destruct (transposes op); lia|].
     split; [unfold th; destruct (transposes op); lia|].
-    split.
+    split; [|split].
     + rewrite map_length. intros Hl. specialize (H1 Hl).
       rewrite Forall_map. rewrite Forall_forall in *. intros c Hc.
       unfold mk_dst. cbv zeta. cbn [c_hs c_vs]. rewrite (Hs c Hc). cbn [fst snd].
       destruct (H1 c Hc) as [-> ->]. unfold tw, th. destruct (transposes op); split; reflexivity.
+    + unfold quant_ok. cbn [i_slots i_comps]. apply (proj2 (forallb_forall _ _)). intros c' Hc'.
+      apply in_map_iff in Hc'. destruct Hc' as (c & <- & Hc).
+      unfold mk_dst. cbv zeta. cbn [c_q c_tq].
+      fold (xf_slots (transposes op) (i_slots im)).
+      rewrite (slot_q_follows im _ c Hqok Hc). apply zlist_eqb_refl.
     + rewrite Forall_map. rewrite Forall_forall. intros c Hc. apply (Hmk c Hc).
 Qed.
 
@@ -429,11 +470,11 @@ Lemma comp_rel_compose op1 op2 c c1 c2 :
   length (c_q c) = 64%nat -> wf_in (c_wb c) (c_hb c) (c_blk c) ->
   comp_rel op1 c c1 -> comp_rel op2 c1 c2 -> comp_rel (op_mul op2 op1) c c2.
 Proof.
-  intros Hq Hwf (A1 & A2 & A3 & A4 & A5 & A6) (B1 & B2 & B3 & B4 & B5 & B6).
+  intros Hq Hwf (A1 & A2 & A3 & A4 & A7 & A5 & A6) (B1 & B2 & B3 & B4 & B7 & B5 & B6).
   unfold comp_rel.
   destruct (tw_compose op2 op1 (c_hs c) (c_vs c)) as [S1 S2].
   destruct (tw_compose op2 op1 (c_wb c) (c_hb c)) as [D1 D2].
-  rewrite B1, B2, B3, B4, B5, A1, A2, A3, A4, A5.
+  rewrite B1, B2, B3, B4, B7, B5, A1, A2, A3, A4, A7, A5.
   rewrite S1, S2, D1, D2, spec_q_compose by exact Hq.
   repeat split; try reflexivity.
   intros x y Hx Hy. rewrite B6 by (rewrite ?B3, ?B4, ?A3, ?A4, ?D1, ?D2; assumption).
@@ -461,7 +502,7 @@ Proof.
   repeat split; try reflexivity.
   apply Forall2_compose with (R1 := comp_rel op1) (R2 := comp_rel op2) (l2 := i_comps im1); [|assumption|assumption].
   intros c c1 c2 Hin Hc1 Hc2.
-  destruct Hw as (_ & _ & _ & _ & _ & Hok). rewrite Forall_forall in Hok.
+  destruct Hw as (_ & _ & _ & _ & _ & _ & Hok). rewrite Forall_forall in Hok.
   destruct (Hok c Hin) as (_ & _ & _ & _ & Hq & Hwf).
   apply (comp_rel_compose op1 op2 c c1 c2); assumption.
 Qed.
@@ -472,13 +513,13 @@ Definition image_same (im im' : image) : Prop := image_rel XNone im im'.
 Lemma image_same_unfold im im' : image_same im im' <->
   i_w im' = i_w im /\ i_h im' = i_h im /\ i_cs im' = i_cs im /\
   Forall2 (fun c c' => c_hs c' = c_hs c /\ c_vs c' = c_vs c /\ c_wb c' = c_wb c /\ c_hb c' = c_hb c /\
-                       c_q c' = c_q c /\
+                       c_tq c' = c_tq c /\ c_q c' = c_q c /\
                        forall x y, 0 <= x < c_wb c' -> 0 <= y < c_hb c' -> c_blk c' x y = c_blk c x y)
           (i_comps im) (i_comps im').
 Proof.
   unfold image_same, image_rel, comp_rel, tw, th, spec_q. cbn [transposes].
   split; intros (H1 & H2 & H3 & H4); repeat split; try assumption;
-    (eapply Forall2_impl; [|exact H4]); cbv beta; intros c c' (E1 & E2 & E3 & E4 & E5 & E6);
+    (eapply Forall2_impl; [|exact H4]); cbv beta; intros c c' (E1 & E2 & E3 & E4 & E7 & E5 & E6);
     repeat split; try assumption; intros x y Hx Hy; specialize (E6 x y Hx Hy);
     rewrite full_plane_none in *; exact E6.
 Qed.
@@ -521,18 +562,25 @@ Proof.
   destruct H as [->|H]; [left; reflexivity|right; apply IH; exact H].
 Qed.
 
+(* accepted => every component keeps ITS OWN table: the table latched for it in the source
+   (which then is also the content of its slot), transposed where the operation transposes;
+   it is what the destination holds in the slot the component refers to *)
 Theorem transform_tables_follow im o im' :
   transform im o = inr im' ->
   Forall (fun c => length (c_q c) = 64%nat) (i_comps im) ->
+  quant_ok im = true /\
   exists nc, (nc <= length (i_comps im))%nat /\
-    Forall2 (fun c c' => c_q c' = spec_q (xo_op o) (c_q c) /\
+    Forall2 (fun c c' => c_tq c' = c_tq c /\ c_q c' = spec_q (xo_op o) (c_q c) /\
+                         slot_of (i_slots im') (c_tq c') = c_q c' /\
                          (c_hs c', c_vs c') = dst_samp (Z.of_nat nc) (transposes (xo_op o)) c)
             (firstn nc (i_comps im)) (i_comps im').
 Proof.
   unfold transform. intros H Hq.
   destruct (request_workspace im o) as [e|p] eqn:Ep; [discriminate|].
+  destruct (quant_ok im) eqn:Eq; cbn [negb] in H; [|discriminate].
+  split; [reflexivity|].
   destruct (xo_gray o && negb (gray_ok im)); [discriminate|].
-  injection H as <-. cbn [i_comps].
+  injection H as <-. cbn [i_comps i_slots].
   assert (Hnc : p_nc p = Z.of_nat (length (i_comps im)) \/ (p_nc p = 1 /\ (1 <= length (i_comps im))%nat)).
   { revert Ep. unfold request_workspace. cbv zeta.
     destruct (xo_perfect o && _); [discriminate|].
@@ -543,10 +591,31 @@ Proof.
     - destruct (xo_op o); intros H; injection H as <-; cbn [p_nc]; left; reflexivity. }
   exists (Z.to_nat (p_nc p)). split; [destruct Hnc as [->|[-> ?]]; lia|].
   rewrite Z2Nat.id by (destruct Hnc as [->|[-> ?]]; lia).
-  apply Forall2_map_r. intros c Hc. cbn [c_q c_hs c_vs]. split.
+  apply Forall2_map_r. intros c Hc. cbn [c_q c_hs c_vs c_tq].
+  apply in_firstn_in in Hc.
+  fold (xf_slots (transposes (xo_op o)) (i_slots im)).
+  rewrite (slot_q_follows im _ c Eq Hc).
+  split; [reflexivity|]. split; [|split; [reflexivity|]].
   - unfold spec_q. destruct (transposes (xo_op o)); [|reflexivity].
-    apply transpose_q_spec. rewrite Forall_forall in Hq. apply Hq. eapply in_firstn_in. exact Hc.
+    apply transpose_q_spec. rewrite Forall_forall in Hq. apply Hq. exact Hc.
   - destruct (dst_samp _ _ c); reflexivity.
+Qed.
+
+(* a redefined slot (some component's latched table differs from its slot) is refused *)
+Theorem transform_refuses_reuse im o p :
+  request_workspace im o = inr p -> quant_ok im = false -> transform im o = inl EQuantReuse.
+Proof. intros Hp Hq. unfold transform. rewrite Hp, Hq. reflexivity. Qed.
+
+Lemma quant_ok_false_iff im :
+  quant_ok im = false <-> exists c, In c (i_comps im) /\ c_q c <> slot_of (i_slots im) (c_tq c).
+Proof.
+  unfold quant_ok. split.
+  - intros H. induction (i_comps im) as [|c cs IH]; cbn [forallb] in H; [discriminate|].
+    apply andb_false_iff in H. destruct H as [H|H].
+    + exists c. split; [left; reflexivity|]. intros E. rewrite <- E, zlist_eqb_refl in H. discriminate.
+    + destruct (IH H) as (c' & Hin & Hne). exists c'. split; [right; exact Hin|exact Hne].
+  - intros (c & Hin & Hne). destruct (forallb _ _) eqn:E; [|reflexivity].
+    rewrite forallb_forall in E. specialize (E c Hin). apply zlist_eqb_eq in E. contradiction.
 Qed.
 
 (* ------------------------------------------------------------ non-vacuity *)
@@ -563,12 +632,12 @@ Definition ex_blk (s : Z) : blk :=
   map (fun k => if Nat.eqb k 9 then -32768 else if Nat.eqb k 19 then 32767 else Z.of_nat k * 37 - s) (seq 0 64).
 
 Definition ex_comp (hs vs mw mh : Z) (s : Z) : comp :=
-  mkcomp hs vs (mw * hs) (mh * vs) (map (fun k => Z.of_nat k + 1) (seq 0 64))
+  mkcomp hs vs (mw * hs) (mh * vs) 0 (map (fun k => Z.of_nat k + 1) (seq 0 64))
          (fun x y => ex_blk (if (0 <=? x) && (x <? 8) && (0 <=? y) && (y <? 8) then s + 7 * x + 100 * y else s)).
 
 (* 4:2:0, 3 x 2 iMCUs = 48 x 32 pixels *)
 Definition ex_image : image :=
-  mkimage 48 32 3 [ex_comp 2 2 3 2 0; ex_comp 1 1 3 2 500; ex_comp 1 1 3 2 900].
+  mkimage 48 32 3 [map (fun k => Z.of_nat k + 1) (seq 0 64)] [ex_comp 2 2 3 2 0; ex_comp 1 1 3 2 500; ex_comp 1 1 3 2 900].
 
 Lemma ex_blk_wf x y s : 0 <= x < 8 -> 0 <= y < 8 -> In s [0; 500; 900] -> wf_blk (ex_blk (s + 7 * x + 100 * y)).
 Proof.
@@ -583,7 +652,7 @@ Qed.
 Lemma ex_comp_ok hs vs s : 1 <= hs -> 1 <= vs -> 3 * hs <= 8 -> 2 * vs <= 8 -> In s [0; 500; 900] ->
   comp_ok 3 2 (ex_comp hs vs 3 2 s).
 Proof.
-  intros H1 H2 H3 H4 Hs. unfold comp_ok, ex_comp. cbn [c_hs c_vs c_wb c_hb c_q c_blk].
+  intros H1 H2 H3 H4 Hs. unfold comp_ok, ex_comp. cbn [c_hs c_vs c_wb c_hb c_tq c_q c_blk].
   split; [exact H1|]. split; [exact H2|]. split; [reflexivity|]. split; [reflexivity|]. split; [reflexivity|].
   intros a b Ha Hb.
   replace ((0 <=? a) && (a <? 8) && (0 <=? b) && (b <? 8)) with true by lia.
@@ -594,6 +663,7 @@ Lemma ex_image_whole : whole_image ex_image 3 2.
 Proof.
   unfold whole_image, ex_image. cbn [i_w i_h i_comps length].
   split; [lia|]. split; [lia|]. split; [reflexivity|]. split; [reflexivity|]. split; [discriminate|].
+  split; [vm_compute; reflexivity|].
   apply Forall_cons; [apply ex_comp_ok; cbn [In]; auto; lia|].
   apply Forall_cons; [apply ex_comp_ok; cbn [In]; auto; lia|].
   apply Forall_cons; [apply ex_comp_ok; cbn [In]; auto; lia|].
